@@ -145,6 +145,22 @@ def run(ctx):
                                   "= %.10g + %.10g - %.10g = %.10g (residual %.3g, allowed %.3g)"
                                   % (row, lk[row], t1, t2, t3, t1 + t2 - t3, resid, tol), dict(desc, row=row, P=P, e=e_, s=s))
                     break
+            # the same table after an in-place wrap_K(): each row must still reconstruct the same function of time (whatever the
+            # object remembered from the get_orbit() calls above must not leak into the orbits built afterwards)
+            if len(out):
+                rows_w = [int(r) for r in rng.choice(len(out), size=min(len(out), 4), replace=False)]
+                before = [out.get_orbit(r).radial_velocity(grid).to_value(du) for r in rows_w]
+                n_neg = int(np.sum(np.asarray(out["K"].value) < 0))
+                out.wrap_K()
+                for r, c0 in zip(rows_w, before):
+                    c1 = out.get_orbit(r).radial_velocity(grid).to_value(du)
+                    ctx.evaluations += 1
+                    scale = abs(X[r][0]) / (1 - float(out["e"][r])) ** 2 + np.max(np.abs(c0)) + 1e-6
+                    if np.max(np.abs(c1 - c0)) > 1e-7 * scale:
+                        ctx.violation("curve-changes-after-wrap_K", "get_orbit(%d) describes another curve after an in-place wrap_K() "
+                                      "(moved by %.3g; %d rows had K < 0)" % (r, np.max(np.abs(c1 - c0)), n_neg), dict(desc, row=r))
+                        break
+                ctx.count("rows_rechecked_after_wrap_K", len(rows_w))
             if i % 15 == 0 and len(out):
                 ctx.sample(dict(desc, rows=len(out), ln_likelihood=lk[:3], t_ref=float(out.t_ref.tcb.mjd) if out.t_ref is not None else None))
         except Exception as e:
